@@ -265,6 +265,10 @@ func sortedAfter(info *types.Info, b *Body, rs *ast.RangeStmt, o types.Object) b
 		if !usesVar(info, s, o) {
 			continue
 		}
+		// uses that only ask for the number of elements do not depend on their order
+		if onlyLenUses(info, s, o) {
+			continue
+		}
 		es, ok := s.(*ast.ExprStmt)
 		if !ok {
 			return false
@@ -368,4 +372,27 @@ func g6GlobalAlias(r *Repo, rep *Report) {
 			return true
 		})
 	}
+}
+
+// onlyLenUses: every use of o inside n is the argument of len().
+func onlyLenUses(info *types.Info, n ast.Node, o types.Object) bool {
+	inLen := map[*ast.Ident]bool{}
+	ast.Inspect(n, func(m ast.Node) bool {
+		if c, ok := m.(*ast.CallExpr); ok && len(c.Args) == 1 {
+			if bi, ok := callee(info, c).(*types.Builtin); ok && bi.Name() == "len" {
+				if id, ok := ast.Unparen(c.Args[0]).(*ast.Ident); ok && info.Uses[id] == o {
+					inLen[id] = true
+				}
+			}
+		}
+		return true
+	})
+	ok := true
+	ast.Inspect(n, func(m ast.Node) bool {
+		if id, isID := m.(*ast.Ident); isID && info.Uses[id] == o && !inLen[id] {
+			ok = false
+		}
+		return true
+	})
+	return ok
 }
